@@ -632,11 +632,37 @@ def r4_reserved_names(R) -> None:
 
 
 # ---------------------------------------------------------------------------
+def _lhs_at_most_one(R, f, rejected, unknown, side_names) -> None:
+    """Each statement contributes exactly one equation: every ENDOGENOUS symbol of a statement is given the statement's
+    equation, so a left-hand side with two variables must be rejected (or the equation attached to one symbol only)."""
+    q = f.q
+    if 2 in rejected and 3 in rejected:
+        R.ok(q, 'a statement with more than one variable on its left-hand side raises ParserError', detail=text(rejected[2].ast)[:90])
+        return
+    if unknown:
+        raise Unknown(f'{q}: left-hand-side test `{text(f.expand(unknown[0].id, unknown[0].ast, stop=side_names))[:60]}` not in the idiom table')
+    pe = Fn(R, f'{P}.parse_equation')
+    attach = [n for n in pe.cfg.nodes if n.ast is not None and n.kind == 'stmt'
+              and any(method_call(x, '_replace') and {k.arg for k in x.keywords} >= {'equation', 'code'} for x in ast.walk(n.ast))]
+    if len(attach) != 1:
+        raise Unknown(f'{P}.parse_equation: {len(attach)} sites attach the equation to a symbol (expected one `_replace(equation=, code=)`)')
+    cond = [(text(a), tr) for (a, tr, tn) in pe.guard_atoms(attach[0].id) if tn.loops]
+    only_type = [c_ for c_ in cond if 'Type.ENDOGENOUS' in c_[0] and c_[1]]
+    rest = [c_ for c_ in cond if c_ not in only_type and 'Type.' not in c_[0]]
+    if only_type and not rest:
+        R.violation(q, 'lhs-more-than-one-variable',
+                    f"no rejection when the left-hand side holds more than one variable ('Y.Z = 1'): parse_equation gives every ENDOGENOUS symbol of the "
+                    f'statement the equation (`{text(attach[0].ast)[:60]}`), so one statement contributes two equations to the built model', where=f.fi.where)
+        return
+    raise Unknown(f'{P}.parse_equation: the equation is attached under {cond}; cannot tell that only one symbol per statement receives it')
+
+
 def r5a_lhs_variable(R) -> None:
     q = f'{P}.parse_equation_terms'
     f = Fn(R, q)
     good = []
     unknown = []
+    rejected: Dict[int, Node] = {}
     from rules.parser_roles import returned_sides
     _ret, parts = returned_sides(f)
     side_names = tuple(p_.id for p_ in parts if isinstance(p_, ast.Name))
@@ -665,12 +691,25 @@ def r5a_lhs_variable(R) -> None:
             neg_list = isinstance(node, ast.UnaryOp) and isinstance(node.op, ast.Not) and isinstance(node.operand, (ast.ListComp, ast.Name))
             c = cmp_of(node)
             zero_len = c is not None and c.op == '==' and any('len(' in k for k in c.expr.terms) and c.expr.const == 0
-            if neg_any or neg_list or zero_len:
+            # counts of left-hand-side variables at which this guard raises
+            if c is not None and len([k for k in c.expr.terms if 'len(' in str(k)]) == 1 and len(c.expr.terms) == 1:
+                (k_, coef), = c.expr.terms.items()
+                for n_ in range(4):
+                    v_ = coef * n_ + c.expr.const
+                    if {'<': v_ < 0, '<=': v_ <= 0, '==': v_ == 0, '!=': v_ != 0}[c.op]:
+                        rejected.setdefault(n_, tn)
+            elif neg_any or neg_list:
+                rejected.setdefault(0, tn)
+            if neg_any or neg_list or zero_len or (0 in rejected and rejected[0] is tn):
                 good.append((r, tn))
-            elif not (isinstance(node, ast.BoolOp)):
+            elif not (isinstance(node, ast.BoolOp)) and not any(v is tn for v in rejected.values()):
                 unknown.append(tn)
+    if 1 in rejected:
+        R.violation(q, 'lhs-one-variable-rejected', f'`{text(rejected[1].ast)[:70]}` rejects a statement with exactly one variable on its left-hand side',
+                    where=f.where(rejected[1]))
     if good:
         R.ok(q, 'a statement whose left-hand side yields no variable raises ParserError', detail=text(good[0][1].ast)[:90])
+        _lhs_at_most_one(R, f, rejected, unknown, side_names)
         return
     if unknown:
         raise Unknown(f'{q}: emptiness test `{text(f.expand(unknown[0].id, unknown[0].ast, stop=side_names))[:60]}` not in the idiom table')
@@ -678,6 +717,111 @@ def r5a_lhs_variable(R) -> None:
     R.violation(q, 'no-lhs-variable-check',
                 "no rejection when the left-hand side yields no variable ('[] = X', '{a} = X', '`self.Y[t]` = X' pass equation_re): "
                 'the statement would be dropped silently', where=f.fi.where)
+
+
+def r5c_no_overwrite(R) -> None:
+    """The returned symbols are the values of a dictionary keyed by name.  A store that replaces the entry of a name seen
+    earlier discards that symbol (and with it the statement's equation, which only the ENDOGENOUS symbol carries): every
+    store must merge with the present entry (`Symbol.combine`, which raises on a clash) or be made under `name not in D`."""
+    n_stores = 0
+    for q in (f'{P}.parse_equation', f'{P}.parse_model'):
+        f = Fn(R, q)
+        res = set()
+        for r in f.returns():
+            if r.ast.value is None:
+                continue
+            for x in ast.walk(r.ast.value):
+                if method_call(x, 'values') and isinstance(x.func.value, ast.Name):
+                    res.add(x.func.value.id)
+        if not R.expect(q, len(res), 1, 'dictionary whose values are the returned symbols'):
+            continue
+        D = sorted(res)[0]
+        for n in f.cfg.nodes:
+            if n.ast is None or n.kind != 'stmt':
+                continue
+            tg = []
+            if isinstance(n.ast, ast.Assign):
+                tg = [t for t in n.ast.targets if isinstance(t, ast.Subscript) and text(t.value) == D]
+            for x in ast.walk(n.ast):
+                if method_call(x, 'update', '__setitem__') and text(x.func.value) == D:
+                    raise Unknown(f'{q}: `{text(x)[:60]}` writes the result dictionary in a form not in the idiom table')
+            for t in tg:
+                n_stores += 1
+                k = text(t.slice)
+                ke = f.etext(n.id, t.slice, stop=(D,))
+                v = f.expand(n.id, n.ast.value, stop=(D,))
+                merges = any(method_call(x, 'combine') and any(
+                    (method_call(y, 'get') and text(y.func.value) == D and y.args and text(y.args[0]) == ke)
+                    or (isinstance(y, ast.Subscript) and text(y.value) == D and text(y.slice) == ke) for y in ast.walk(x.func.value))
+                    for x in ast.walk(v))
+                fresh = f.holds(n.id, f'{k} in {D}', False) or f.xholds(n.id, f'{k} in {D}', False, stop=(D,))
+                if merges:
+                    R.ok(q, f'`{text(n.ast)[:70]}` merges with the entry already stored under the name (Symbol.combine raises on a clash)')
+                elif fresh:
+                    R.ok(q, f'`{text(n.ast)[:70]}` is made only when the name has no entry yet')
+                elif not any(isinstance(y, ast.Name) and y.id == D for y in ast.walk(v)):
+                    R.violation(q, f'overwrite:{D}[{k}]',
+                                f'`{text(n.ast)[:70]}` replaces whatever symbol is already stored under that name: a variable seen earlier in the statement is '
+                                f"lost, and with it the statement's equation ('Y = Y(X)' parses to no equation at all)", where=f.where(n.ast))
+                else:
+                    raise Unknown(f'{q}: store `{text(n.ast)[:70]}` into the result dictionary is neither a combine() with the present entry nor guarded by absence')
+    R.expect(P, n_stores, 3, 'stores into the result dictionaries of parse_equation / parse_model')
+
+
+def r5d_repeated_definition(R) -> None:
+    """Two statements defining one variable: Symbol.combine rejects them only when their texts differ (and cannot do
+    otherwise: `D.get(k, s).combine(s)` combines a first definition with itself).  The merge loop of parse_model must
+    therefore reject a second definition itself, whatever its text."""
+    q = f'{P}.parse_model'
+    f = Fn(R, q)
+    stores = [n for n in f.cfg.nodes if n.ast is not None and n.kind == 'stmt' and isinstance(n.ast, ast.Assign) and n.loops
+              and any(method_call(x, 'combine') for x in ast.walk(n.ast.value)) and isinstance(n.ast.targets[0], ast.Subscript)]
+    if not R.expect(q, len(stores), 1, 'merge of a statement\'s symbols into the result (`D[name] = D.get(name, s).combine(s)`)'):
+        return
+    st = stores[0]
+    D = text(st.ast.targets[0].value)
+    comb = [x for x in ast.walk(st.ast.value) if method_call(x, 'combine')][0]
+    sym = text(comb.args[0]) if comb.args else '?'
+    k = f.etext(st.id, st.ast.targets[0].slice, stop=(D, sym))
+    want = {(f'{sym}.equation is None', False), (f'{k} in {D}', True), (f'{D}[{k}].equation is None', False)}
+    found = None
+    other = []
+    for r in f.raises():
+        if st.loops[-1] not in r.loops:
+            continue
+        atoms = {(text(f.expand(tn.id, a, stop=(D, sym))), tr) for (a, tr, tn) in f.guard_atoms(r.id) if tn.loops and st.loops[-1] in tn.loops}
+        # `name is None` (verbatim) on the other branch does not restrict named symbols
+        atoms = {(a, tr) for (a, tr) in atoms if a not in (f'{k} is None',)}
+        if atoms == want and f.raised(r) in OWN_ERRORS:
+            found = r
+        elif atoms & want:
+            other.append((r, atoms))
+    if found is not None:
+        # the rejecting test must be met before the store
+        tests = [tn for (a, tr, tn) in f.guard_atoms(found.id) if tn.loops and st.loops[-1] in tn.loops]
+        if all(f.cfg.reaches(tn.id, st.id) for tn in tests):
+            R.ok(q, 'a second statement defining an already defined variable raises, whatever its text', detail=f.where(found.ast))
+            return
+    if other:
+        raise Unknown(f'{q}: a raise under {sorted(other[0][1])} precedes the merge; not the repeated-definition test this rule can read')
+    # no such test: does combine() let equal texts through?
+    c = Fn(R, f'{P}.Symbol.combine')
+    rs = [r for r in c.raises('ParserError')]
+    lenient = [r for r in rs if any(isinstance(a, ast.Compare) and isinstance(a.ops[0], ast.Eq) and not tr for (a, tr, _tn) in c.guard_atoms(r.id))]
+    nested = [x for x in ast.walk(c.fi.node) if isinstance(x, ast.FunctionDef) and x is not c.fi.node
+              and any(isinstance(y, ast.Raise) and 'ParserError' in text(y) for y in ast.walk(x))]
+    if nested and not rs:
+        for fn_ in nested:
+            for y in ast.walk(fn_):
+                if isinstance(y, ast.If) and isinstance(y.test, ast.Compare) and isinstance(y.test.ops[0], ast.NotEq) \
+                        and any(isinstance(z, ast.Raise) for z in ast.walk(y)):
+                    lenient.append(y)
+    if lenient:
+        R.violation(q, 'repeated-definition-merged',
+                    f"no rejection of a statement that repeats an earlier definition: `{text(st.ast)[:70]}` relies on Symbol.combine, which raises only when the "
+                    f"two equations differ ('Y = X' twice parses to one equation; the second statement is dropped silently)", where=f.where(st.ast))
+        return
+    raise Unknown(f'{q}: no repeated-definition test before the merge and Symbol.combine\'s own test was not recognised')
 
 
 def r5b_statement_kind(R) -> None:
@@ -867,5 +1011,7 @@ def run(R) -> None:
     R.rule('C13.R4', lambda: r4_reserved_names(R))
     R.rule('C13.R5a', lambda: r5a_lhs_variable(R))
     R.rule('C13.R5b', lambda: r5b_statement_kind(R))
+    R.rule('C13.R5c', lambda: r5c_no_overwrite(R))
+    R.rule('C13.R5d', lambda: r5d_repeated_definition(R))
     R.rule('C13.R6', lambda: r6_termination(R))
     R.rule('C13.R7', lambda: r7_end_of_input(R))
